@@ -830,6 +830,59 @@ func genTrace(prop string, seed uint64, run int, o genOpts) *Trace {
 		}
 	}
 
+	// closed walk (C11, 1 run in 5): a universe of 6..10 keys built to force
+	// splits, merges and the inline limit; random toggles visit its subsets, and
+	// since the shape may depend only on the key set, every revisit of a subset
+	// is compared (through the ideal tree) with every other way of reaching it
+	if prop == "C11" && r.Intn(5) == 0 {
+		g := gts[0]
+		var uni [][]byte
+		for len(uni) < r.Range(6, 10) {
+			k := g.newKey(r, false)
+			dup := false
+			for _, u := range uni {
+				if string(g.kt.Canon(u)) == string(g.kt.Canon(k)) {
+					dup = true
+				}
+			}
+			if dup || (g.kt.Kind == "collation" && func() bool {
+				for _, u := range uni {
+					if string(g.m.co.Key(u)) == string(g.m.co.Key(k)) {
+						return true
+					}
+				}
+				return false
+			}()) {
+				continue
+			}
+			if g.kt.Kind == "alpha" {
+				bad := false
+				for _, u := range uni {
+					if len(u) > len(k) && string(u[:len(k)]) == string(k) && u[len(k)] == 0 || len(k) > len(u) && string(k[:len(u)]) == string(u) && k[len(u)] == 0 {
+						bad = true
+					}
+				}
+				if bad {
+					continue
+				}
+			}
+			uni = append(uni, k)
+		}
+		n := r.Range(60, 240)
+		for j := 0; j < n; j++ {
+			k := uni[r.Intn(len(uni))]
+			if _, ok := g.m.Get(k); ok {
+				emit(Step{T: 0, Op: "del", K: clone(k)})
+				g.m.Del(k)
+			} else {
+				emit(Step{T: 0, Op: "ins", K: clone(k), V: nextID})
+				g.m.Put(k, nextID)
+				nextID++
+			}
+		}
+		return tr
+	}
+
 	for len(tr.Steps) < budget {
 		// environment
 		if p.envRate > 0 && r.Intn(p.envRate) == 0 {
